@@ -68,3 +68,12 @@ def member(x, s):
 
 def empty_set(kind=None):
     return frozenset()
+
+
+def seq_map(f, xs, *extras):
+    return [f(x, *extras) for x in xs]
+
+
+def mk_tconst(name, args):
+    from kernel.type import TConst
+    return TConst(name, *args)
